@@ -1,6 +1,8 @@
 package main
 
 import (
+	"strconv"
+	"encoding/binary"
 	"bufio"
 	"crypto/tls"
 	"encoding/base64"
@@ -92,7 +94,7 @@ func streamC05(env *runEnv) {
 	r := rand.New(rand.NewSource(env.seed))
 	idp := newFakeIdP()
 	defer idp.close()
-	users := map[string]string{"1": "pw1", "2": "pw2", "bas:ic": "p:w"}
+	users := map[string]string{"1": "pw1", "2": "pw2", "bas:ic": "p:w", "DOM\\1": "pwd", "9@corp": "pw9"}
 	type mech struct {
 		openid, kerberos, local, ntlm bool
 		alias bool // the local mechanism spelled "basic"
@@ -241,6 +243,33 @@ func streamC05(env *runEnv) {
 			}
 			env.count("c05.mech." + bits)
 			env.emit("httpauth", bits, q.method, v, basic, ans, valid, obs)
+		}
+		// the tunnel's user is the name the backend confirmed: seen through the host policy, whose only entry
+		// is 127.0.0.<user>:3389 (allowed -> the dial fails with an internal error, otherwise access denied)
+		if m.local && !m.openid {
+			for _, u := range []string{"1", "DOM\\1", "9@corp"} {
+				for _, asked := range []string{u, "1", "9"} {
+					ws, st, _, err := wsDial(g, wsOpts{headers: map[string]string{"Authorization": be(u, users[u])}})
+					obs := fmt.Sprintf("upgrade=%d", st)
+					if err == nil && st == 101 {
+						obs = "no-answer"
+						for _, p := range [][]byte{
+							packet(ptHandshake, handshakeBody(1, 0, 0, 0)),
+							packet(ptTunnelCreate, tunnelCreateBody(0, "", false)),
+							packet(ptTunnelAuth, tunnelAuthBody("pc")),
+							packet(ptChannelCreate, channelCreateBody("127.0.0."+asked, 3389)),
+						} {
+							ws.send(p)
+							if mm, e := ws.recv(8 * time.Second); e == nil && len(mm) >= 12 && int(mm[0])|int(mm[1])<<8 == 9 {
+								obs = "channel=" + strconv.FormatUint(uint64(binary.LittleEndian.Uint32(mm[8:12])), 10)
+							}
+						}
+						ws.close()
+					}
+					env.count("c05.authuser")
+					env.emit("authuser", hx([]byte(u)), hx([]byte("127.0.0."+asked+":3389")), obs)
+				}
+			}
 		}
 		// liveness after all hostile inputs
 		if c, err := dialGateway(g); err == nil {
